@@ -393,6 +393,9 @@ struct EvalCase {
     files_first: bool,
     /// compile with TmplGroup::new_dev
     dev: bool,
+    /// multi-file groups: execute the bundle of get_wx_gen_object_groups (registered through __wxCodeSpace__) instead of
+    /// the one of get_tmpl_gen_object_groups
+    wx: bool,
 }
 #[derive(Clone)]
 enum FileSrc { Text(String), Rep(String, usize) }
@@ -441,7 +444,7 @@ fn ev(family: &'static str, src: String, checks: Vec<(&str, String, bool)>, vars
     EvalCase {
         family, path: "a".into(), src, name: String::new(),
         checks: checks.into_iter().map(|(s, e, q)| (s.to_string(), e, q)).collect(),
-        guards: vec![], vars, pool, pick, flat: None, any_diag: false, bmap1: family == "bmap", alts: vec![], files: vec![], post: vec![], files_first: false, dev: false,
+        guards: vec![], vars, pool, pick, flat: None, any_diag: false, bmap1: family == "bmap", alts: vec![], files: vec![], post: vec![], files_first: false, dev: false, wx: false,
     }
 }
 
@@ -619,6 +622,9 @@ fn family_mem(out: &mut Vec<Case>) {
         un("typeof", mem(lit("true"), "valueOf")), mem(mem(arr(vec![v(o.clone())]), "length"), "constructor"), idx(obj(vec![named("x", a.clone())]), k.clone()),
         call(mem(obj(vec![named("g", f.clone())]), "g"), vec![a.clone()]), un("typeof", call(f.clone(), vec![])), un("void", call(f.clone(), vec![])), bin("instanceof", o.clone(), f.clone()),
         mem(mem(f.clone(), "name"), "length"), mem(f.clone(), "length"), mem(f.clone(), "prototype"), cond(mem(o.clone(), "x"), call(f.clone(), vec![lit("1")]), call(f.clone(), vec![lit("2")])),
+        // constant string keys: identifier-like, digit-first, keyword, empty, with other characters
+        idx(o.clone(), lit("'x'")), idx(o.clone(), lit("'0'")), idx(o.clone(), lit("'1st'")), mem(idx(o.clone(), lit("'2'")), "y"), idx(o.clone(), lit("'9x_$'")), idx(o.clone(), lit("'new'")), idx(o.clone(), lit("''")),
+        idx(o.clone(), lit("'a-b'")), idx(o.clone(), lit("'$'")), idx(o.clone(), lit("'_1'")), idx(idx(o.clone(), lit("'x'")), lit("'0'")), call(idx(o.clone(), lit("'f'")), vec![a.clone()]),
     ];
     for e in trees {
         let mut vars = vec![];
@@ -1161,8 +1167,14 @@ fn c13_case(label: &str, main: &str, files: Vec<(&str, &str, bool)>, want_texts:
     // both insertion orders: the template under test first, and last
     let mut c2 = c.clone();
     c2.files_first = true;
+    // and both bundle flavours
+    let (mut c3, mut c4) = (c.clone(), c2.clone());
+    c3.wx = true;
+    c4.wx = true;
     out.push(Case::Eval(c));
     out.push(Case::Eval(c2));
+    out.push(Case::Eval(c3));
+    out.push(Case::Eval(c4));
 }
 /// cross-file linking, EXECUTED through the all-templates bundle: which definition a `<template is>` reaches, what an
 /// `<include>` renders, which module an external `<wxs>` binds -- for every spelling of the reference
@@ -1208,6 +1220,14 @@ fn family_c13(out: &mut Vec<Case>) {
         let head: String = o.iter().map(|i| decls[*i].clone()).collect();
         c13_case("modules-mixed", &format!("{}{}", head, uses), vec![f1, f2], want, out);
     }
+}
+
+/// dataset / mark names that repeat their own prefix or another one: only ONE prefix is the attribute kind
+fn family_c12_prefixed_names(out: &mut Vec<Case>) {
+    let tpl = "<v data-data-id=\"x1\" data-data-data-source=\"x2\" data-a-data-b=\"x3\" data:dataK=\"x4\" data-mark-m=\"x5\" mark:mark-m=\"x6\" mark:data-d=\"x7\" data-bind-tap=\"x8\"/>";
+    let checks = vec![("d:dataId", "\"x1\"".to_string(), false), ("d:dataDataSource", "\"x2\"".to_string(), false), ("d:aDataB", "\"x3\"".to_string(), false), ("d:dataK", "\"x4\"".to_string(), false),
+        ("d:markM", "\"x5\"".to_string(), false), ("m:mark-m", "\"x6\"".to_string(), false), ("m:data-d", "\"x7\"".to_string(), false), ("d:bindTap", "\"x8\"".to_string(), false)];
+    out.push(c12_case("c12/prefixed-names".to_string(), tpl.to_string(), checks));
 }
 
 /// dev mode hands the runtime the list of attribute names each element carries (`R.devArgs(N).A`): the names are constants
@@ -1411,6 +1431,7 @@ fn all_cases() -> Vec<Case> {
     family_c13(&mut v);
     family_c05_post(&mut v);
     family_c12_dev(&mut v);
+    family_c12_prefixed_names(&mut v);
     if known_mode() {
         family_hoist(&mut v);
         for k in KNOWN { if let Some(c) = decode_input(k) { v.push(c); } }
@@ -1439,6 +1460,7 @@ fn encode_eval_alt(c: &EvalCase, tuple: &[usize], alt: Option<(String, J)>) -> S
     if !c.files.is_empty() { o.push(("gfiles", J::Arr(c.files.iter().map(|(p, s, sc)| J::Arr(vec![js(p), js(s), J::Bool(*sc)])).collect()))); }
     if c.files_first { o.push(("ffirst", J::Bool(true))); }
     if c.dev { o.push(("devm", J::Bool(true))); }
+    if c.wx { o.push(("wxb", J::Bool(true))); }
     if !c.post.is_empty() { o.push(("post", J::Arr(c.post.iter().map(|(m, t)| J::Arr(vec![js(m), js(t)])).collect()))); }
     jo(o).text()
 }
@@ -1473,6 +1495,7 @@ fn decode_input(input: &str) -> Option<Case> {
                 alts: if let Some(J::Obj(o)) = j.get("alts") { o.clone() } else { vec![] },
                 files_first: j.get("ffirst").map(|d| d.truthy()).unwrap_or(false),
                 dev: j.get("devm").map(|d| d.truthy()).unwrap_or(false),
+                wx: j.get("wxb").map(|d| d.truthy()).unwrap_or(false),
                 post: j.get("post").map(|f| f.arr().iter().map(|x| (x.arr()[0].str().unwrap_or("").to_string(), x.arr()[1].str().unwrap_or("").to_string())).collect()).unwrap_or_default(),
                 files: j.get("gfiles").map(|f| f.arr().iter().map(|x| (x.arr()[0].str().unwrap_or("").to_string(), x.arr()[1].str().unwrap_or("").to_string(), x.arr()[2].truthy())).collect()).unwrap_or_default(),
             }))
@@ -1513,7 +1536,7 @@ fn compile(id: usize, case: &Case, seen: &mut std::collections::HashSet<String>)
                 for (m, t) in &c2.post { let _ = g.set_inline_script_content(&c2.path, m, t); }
                 // Note / Warn diagnostics (e.g. `duplicated name` for `{ x: 1, x: 2 }`) do not reject the expression
                 let diag = diags.iter().filter(|d| d.prevent_success()).map(|d| format!("{:?}", d)).collect::<Vec<_>>().join("; ");
-                let code = if c2.files.is_empty() { g.get_tmpl_gen_object(&c2.path).map_err(|e| e.to_string()) } else { g.get_tmpl_gen_object_groups().map_err(|e| e.to_string()) };
+                let code = if c2.files.is_empty() { g.get_tmpl_gen_object(&c2.path).map_err(|e| e.to_string()) } else if c2.wx { g.get_wx_gen_object_groups().map_err(|e| e.to_string()) } else { g.get_tmpl_gen_object_groups().map_err(|e| e.to_string()) };
                 (diag, g.get_runtime_string(), code)
             });
             let input = encode_eval(c, &first_tuple(c));
@@ -1532,7 +1555,7 @@ fn compile(id: usize, case: &Case, seen: &mut std::collections::HashSet<String>)
             ];
             if let Some(f) = &c.flat { o.push(("flat", js(f))); }
             if c.bmap1 { o.push(("bmap1", J::Bool(true))); }
-            if !c.files.is_empty() { o.push(("group", J::Bool(true))); o.push(("gpath", js(&norm_path(&c.path)))); }
+            if !c.files.is_empty() { o.push(("group", J::Bool(true))); o.push(("gpath", js(&norm_path(&c.path)))); if c.wx { o.push(("gwx", J::Bool(true))); } }
             if !c.alts.is_empty() { o.push(("alts", J::Obj(c.alts.clone()))); }
             let body = jo(o).text();
             // the two parenthesisations of a tree usually compile to the same code: execute it once
